@@ -247,11 +247,15 @@ def rule_iter_err(cx, tier):
     return r
 
 
+PASS_THROUGH = ("Option::map", "Try::branch", "Option::or", "Option::filter", "Option::inspect", "Into::into", "From::from")
+
+
 def _output_evidence(cx, fn, src):
     """how the output held in `src` (or an alias) is handled: 'forwarded:…' / 'error-extracted' / None"""
     crate = fn.crate
     aliases = {src}
     refs = set()
+    passed = set()
     changed = True
     evidence = None
 
@@ -298,6 +302,14 @@ def _output_evidence(cx, fn, src):
                 if a0 in aliases and not c.dest[1] and c.dest[0] not in aliases and c.dest[0] != 0:
                     aliases.add(c.dest[0])
                     changed = True
+            # wrappers whose result is still (an Option / ControlFlow of) the same output: the value lives on in the result
+            if c.is_(*PASS_THROUGH) and c.args and not c.dest[1] and c.dest[0] != 0 and c.dest[0] not in aliases:
+                a0 = op_base(c.args[0])
+                if a0 in aliases and (_is_output_ty(crate, fn.local_ty(c.dest[0])) or
+                                      "KIteratorOutput" in crate.tstr(fn.local_ty(c.dest[0]))):
+                    aliases.add(c.dest[0])
+                    passed.add(c.bb)
+                    changed = True
     for b in fn.blocks:
         if b.cleanup:
             continue
@@ -326,6 +338,8 @@ def _output_evidence(cx, fn, src):
                 continue
             if c.is_(*INSPECT_ONLY) or c.is_("Option::take", "Clone::clone", "Option::cloned", "mem::take", "mem::replace"):
                 continue
+            if c.bb in passed:
+                continue        # the output continues in the wrapper's result, which is followed as an alias
             aty = crate.types[c.arg_ty(i)]
             if aty["k"] in ("ref", "refmut") and c.resolved not in cx.F.fns and not c.cb and not c.cl:
                 continue
